@@ -26,6 +26,24 @@ Three flavours observe the same boundary:
             mapping, and through ``iter_paragraphs``), several relationship
             fields per paragraph.
 
+``view``    ``.relations`` is a dict-like object; subscripting it is only one of
+            the ways a caller reads it.  The flavour reads it through every
+            other read path a dict offers - ``.items()``, ``.values()``,
+            ``.keys()``, iteration, ``.get(name)``, ``.get(name, default)``,
+            ``dict(rel)``, ``{**rel}``, ``.copy()``, ``==`` / ``!=`` with the
+            relations of another paragraph object, ``in``, ``len`` - each on a
+            FRESH paragraph object BEFORE any subscript was made on it (phase
+            ``first``), then subscripts every field (also the documented
+            relationship fields the paragraph does not carry: ``[]``), then
+            repeats the read path (phase ``later``).  Three plan classes per
+            case, every plan on paragraph objects of its own: ``single`` (one
+            read path, rotated so that every path is first equally often),
+            ``chain`` (several read paths in a row before the first subscript)
+            and ``alt`` (the ``.relations`` of two paragraph objects are read
+            ALTERNATELY, random read paths and subscripts interleaved).  The
+            oracle is the same as everywhere: the structure that was formatted
+            into the field, ``[]`` for a documented absent field.
+
 The history flavour is generated last, so its in-place edits cannot influence
 the other flavours.  Witnesses of the ``rt`` flavour carry ``repeat: 2`` (the
 same structure is round-tripped twice on replay), so that a defect which needs
@@ -76,7 +94,20 @@ RULE = ('Relation structures of 1..4 AND-groups x 1..3 alternatives (thorough: u
         'dict.fromkeys+update, dict(sorted(items)), reverse-sorted, dict(reversed(items)), d[k]=d.pop(k), plain copy); the '
         'oracle is the ==-equal canonical structure and str of both must be the same string.  A complete matrix of (operator or none) x subsets of the three other '
         'optional parts x 5 positions is part of every run.  A structure is non-trivial when at least one atom carries '
-        'two or more of the four optional parts.')
+        'two or more of the four optional parts.  View flavour (2000 / 36000 cases): 2..3 Packages or Sources paragraphs '
+        'with 1..4 relationship fields each (built from text, lines, a mapping, iter_paragraphs; in half of the cases all '
+        'paragraphs carry the same Package name, as the versions of one package do in a real index); the dict-like .relations '
+        'is read through items(), values()+keys(), keys(), iteration, get(name), get(name, default), dict(rel), {**rel}, '
+        'copy(), == / != (with the relations of a second, never subscripted object of the same paragraph; of an object of a '
+        'paragraph with other values; with the expected plain dict), "in" and len.  Three plans per case, each on paragraph '
+        'objects of its own: "single" - one read path (rotated, so that every path is the first access equally often) on '
+        'every paragraph BEFORE any subscript, then rel[Name] / rel[name] of every present field and rel[name] of every '
+        'documented absent field, then the read path again; "chain" - 2..4 read paths in a row before the first subscript '
+        'and again after it; "alt" - 5..10 steps that read the relations of two paragraph objects ALTERNATELY through '
+        'random read paths and subscripts.  In half of the plans the object returned by the first .relations access of a '
+        'paragraph is kept and re-read, in the other half .relations is fetched at every step.  Every value read for a '
+        'present field must be the structure that was formatted into it (values, types, second formatting), every value '
+        'read for a documented relationship field the paragraph lacks must be [].')
 ASSUMPTIONS = [
     'domain restricted to what the statement quantifies over: lower-case policy-valid package names, the five operators, '
     'version strings dpkg accepts (vp.models.dpkgver.classify == accept, upstream starting with a digit), architecture '
@@ -90,6 +121,21 @@ ASSUMPTIONS = [
     'insertion order is the same input: str must give the same string for it and parse must give back an == structure; '
     'nothing is demanded about the key order of the dicts parse_relations returns',
     'only the text produced by PkgRelation.str is parsed (no alternative spacing, no folded field values)',
+    'view flavour: .relations is documented as a dictionary whose keys depend on the package kind and whose values are the '
+    'parsed relationships; the keys demanded are the lower-case relationship field names of the class (Packages: depends, '
+    'pre-depends, recommends, suggests, breaks, conflicts, provides, replaces, enhances, built-using; Sources: the six '
+    'build-* fields and binary - the sets the library\'s own TestPkgRelations pins), a field the paragraph lacks reads as '
+    '[]; further keys are tolerated and their values not judged (the comparison with the expected plain dict is made only '
+    'when the key set is exactly the documented one); nothing is demanded about key ORDER, about the identity of the '
+    'objects returned by two reads, or about .relations returning the same object twice',
+    'view flavour: only the subscript is documented to accept the field name in any case (the dict lower-cases on lookup), '
+    'so get() and "in" are asked with the lower-case key only; only reading operations are applied to .relations (no '
+    'assignment, deletion, setdefault or in-place edit of a returned structure), and the paragraph itself is not modified '
+    'between reads; the Binary field of Sources is never generated (its value is a name list, outside the statement) - it '
+    'is only observed as an absent field',
+    'view flavour: == between the relations of two paragraph objects is judged as dict equality: objects of the same '
+    'paragraph text must compare equal, and objects whose expected mappings differ under == must compare unequal (if they '
+    'compared equal, one of the two would hold a structure other than the one formatted into its paragraph)',
 ]
 ANCHORS = ['debian.deb822:PkgRelation.parse_relations',
            'debian.deb822:PkgRelation.str',
@@ -107,14 +153,42 @@ POSITIONS = ['alone', 'first', 'middle', 'last', 'multi']
 SHAPES = ['%s|%s%s%s' % (op or 'none', 'q' if q else '-', 'a' if a else '-', 'r' if r else '-')
           for op in [None] + OPS for q in (0, 1) for a in (0, 1) for r in (0, 1)]
 
+# read paths of the dict-like `.relations` other than the subscript
+VIEW_PATHS = ['items', 'values', 'keys', 'iter', 'get', 'get-default', 'dict', 'unpack', 'copy', 'eq', 'in', 'len']
+VIEW_STEPS = VIEW_PATHS + ['sub']
+VIEW_PLANS = ['single', 'chain', 'alt']
+
 # total counts per tier (split over the shards)
 N_MATRIX_REPS = {'quick': 25, 'thorough': 300}          # x 48 shapes x 5 positions
 N_RANDOM = {'quick': 90000, 'thorough': 2000000}
 N_HIST = {'quick': 12000, 'thorough': 200000}
 N_DEB822 = {'quick': 6000, 'thorough': 80000}
+N_VIEW = {'quick': 2000, 'thorough': 36000}              # x 3 plans (single, chain, alt), each on fresh paragraph objects
+
+
+
+def _view_floors(cases, first, later, sub_first, sub_later, present, absent, switches):
+    """Floors of the view flavour: every read path must have been applied both before and after a subscript."""
+    f = {'flavour:view': cases, 'view:Packages': cases // 2, 'view:Sources': cases // 2,
+         'view:plan:single': cases, 'view:plan:chain': cases, 'view:plan:alt': cases,
+         'view:rel:kept': cases * 14 // 10, 'view:rel:refetched': cases * 14 // 10,
+         'view:package-names:same': cases * 45 // 100, 'view:package-names:distinct': cases * 45 // 100,
+         'view:path:sub:first': sub_first, 'view:path:sub:later': sub_later,
+         'view:present': present, 'view:absent': absent, 'view:alt-switch': switches}
+    for init in ('text', 'lines', 'dict', 'iter'):
+        f['view:init:%s' % init] = cases * 23 // 100
+    for p in VIEW_PATHS:
+        f['view:path:%s:first' % p] = first
+        f['view:path:%s:later' % p] = later
+    return f
+
+
+VIEW_FLOORS = {'quick': _view_floors(1000, 1050, 850, 5500, 350, 60000, 120000, 6000),
+               'thorough': _view_floors(18000, 19000, 15000, 100000, 6300, 1000000, 2100000, 110000)}
 
 FLOORS = {'quick': {'nontrivial': 50000,
-                    'monitors': {'M': 54000, 'M.idem': 54000, 'M.hist': 12000, 'M.deb822': 11000, 'M.order': 48000},
+                    'monitors': {'M': 54000, 'M.idem': 54000, 'M.hist': 12000, 'M.deb822': 11000, 'M.order': 48000,
+                                 'M.view': 185000, 'M.view.eq': 5500},
                     'counters': {'flavour:rt': 48000, 'flavour:hist': 6000, 'flavour:deb822': 3000,
                                  'deb822:Packages': 1500, 'deb822:Sources': 1500,
                                  'deb822:init:text': 700, 'deb822:init:lines': 700, 'deb822:init:dict': 700,
@@ -130,10 +204,12 @@ FLOORS = {'quick': {'nontrivial': 50000,
                                  # architecture lists by class (measured on the executed case)
                                  'archlist:plain': 48000, 'archlist:negated': 48000,
                                  'archlist:mixed:neg-then-plain': 7900, 'archlist:mixed:plain-then-neg': 7900,
-                                 'archlist:mixed:alternating': 13900, 'archlist:mixed:irregular': 2800}},
+                                 'archlist:mixed:alternating': 13900, 'archlist:mixed:irregular': 2800,
+                                 # view flavour: read paths of the dict-like .relations other than the subscript
+                                 **VIEW_FLOORS['quick']}},
           'thorough': {'nontrivial': 1100000,
                        'monitors': {'M': 1100000, 'M.idem': 1100000, 'M.hist': 200000, 'M.deb822': 150000,
-                                    'M.order': 1050000},
+                                    'M.order': 1050000, 'M.view': 3300000, 'M.view.eq': 105000},
                        'counters': {'flavour:rt': 1000000, 'flavour:hist': 100000, 'flavour:deb822': 40000,
                                     'deb822:Packages': 20000, 'deb822:Sources': 20000,
                                     'deb822:init:text': 9000, 'deb822:init:lines': 9000, 'deb822:init:dict': 9000,
@@ -147,7 +223,8 @@ FLOORS = {'quick': {'nontrivial': 50000,
                                     'keyorder:via:reversed': 550000, 'keyorder:via:copy': 550000,
                                     'archlist:plain': 1500000, 'archlist:negated': 1500000,
                                     'archlist:mixed:neg-then-plain': 240000, 'archlist:mixed:plain-then-neg': 240000,
-                                    'archlist:mixed:alternating': 420000, 'archlist:mixed:irregular': 109000}}}
+                                    'archlist:mixed:alternating': 420000, 'archlist:mixed:irregular': 109000,
+                                    **VIEW_FLOORS['thorough']}}}
 SHAPE_FLOOR = {'quick': 1800, 'thorough': 55000}           # per shape, over the whole run
 KSHAPE_FLOOR = {'quick': 875, 'thorough': 27000}             # per shape with a permuted key order
 
@@ -307,6 +384,31 @@ PKG_FIELDS = ['Depends', 'Pre-Depends', 'Recommends', 'Suggests', 'Breaks', 'Con
 SRC_FIELDS = ['Build-Depends', 'Build-Depends-Indep', 'Build-Depends-Arch', 'Build-Conflicts', 'Build-Conflicts-Indep',
               'Build-Conflicts-Arch']
 CLS_FIELDS = {'Packages': PKG_FIELDS, 'Sources': SRC_FIELDS}
+# the keys `.relations` is documented to carry (class attribute _relationship_fields, pinned by the library's own
+# TestPkgRelations): every one of them is a key whether or not the paragraph has the field; absent -> []
+DOC_KEYS = {'Packages': [f.lower() for f in PKG_FIELDS],
+            'Sources': [f.lower() for f in SRC_FIELDS] + ['binary']}
+
+
+def gen_view_plans(r, npar, rot):
+    """Three plans, each executed on paragraph objects of its own.  A step is [paragraph index, read path]."""
+    every = list(range(npar))
+    subs = [[pi, 'sub'] for pi in every]
+    p = VIEW_PATHS[rot % len(VIEW_PATHS)]
+    single = [[pi, p] for pi in every] + subs + [[pi, p] for pi in every]
+    paths = r.sample(VIEW_PATHS, r.randint(2, 4))
+    if r.random() < 0.5:
+        before = [[pi, q] for pi in every for q in paths]
+    else:
+        before = [[pi, q] for q in paths for pi in every]
+    chain = before + subs + [[pi, q] for pi in every for q in paths]
+    a, b = r.sample(every, 2)
+    alt = []
+    for k in range(r.randint(5, 10)):
+        alt.append([a if k % 2 == 0 else b, r.choice(VIEW_PATHS + ['sub', 'sub', 'sub'])])
+    return [{'plan': 'single', 'hold': r.random() < 0.5, 'steps': single},
+            {'plan': 'chain', 'hold': r.random() < 0.5, 'steps': chain},
+            {'plan': 'alt', 'hold': r.random() < 0.5, 'steps': alt}]
 
 
 def cases(ctx):
@@ -334,7 +436,20 @@ def cases(ctx):
             names = r.sample(CLS_FIELDS[cls], r.choice([1, 1, 2, 3, 4]))
             paras.append([[n, gen_rels(r)] for n in names])
         yield {'kind': 'deb822', 'cls': cls, 'init': r.choice(['text', 'lines', 'dict', 'iter']), 'paras': paras}
-    # 4. history flavour - last, so that the in-place edits it makes cannot influence the other flavours
+    # 4. the other read paths of the dict-like .relations, before and after a subscript, two objects alternately
+    r = ctx.rng('view')
+    for i in range(ctx.size(N_VIEW['quick'], N_VIEW['thorough'])):
+        cls = 'Packages' if i % 2 == 0 else 'Sources'
+        paras = []
+        for _p in range(r.choice([2, 2, 3])):          # at least two: alternation and != need a second paragraph
+            names = r.sample(CLS_FIELDS[cls], r.choice([1, 2, 2, 3, 4]))
+            paras.append([[n, gen_rels(r)] for n in names])
+        # the paragraphs of half of the cases carry one and the same Package name (as the versions / architectures of a
+        # package do in a real Packages or Sources file): nothing but the object tells their relations apart
+        pkg = ['pkg0'] * len(paras) if r.random() < 0.5 else ['pkg%d' % j for j in range(len(paras))]
+        yield {'kind': 'view', 'cls': cls, 'init': r.choice(['text', 'lines', 'dict', 'iter']), 'paras': paras, 'pkg': pkg,
+               'plans': gen_view_plans(r, len(paras), i // 2 + ctx.shard)}
+    # 5. history flavour - last, so that the in-place edits it makes cannot influence the other flavours
     r = ctx.rng('hist')
     kinds = ['arch', 'term', 'group', 'scalar', 'alt', 'and']
     for _i in range(ctx.size(N_HIST['quick'], N_HIST['thorough'])):
@@ -699,8 +814,8 @@ def run_hist(ctx, PR, case):
         ctx.nontrivial()
 
 
-def para_text(PR, cls, idx, fields):
-    lines = ['Package: pkg%d' % idx]
+def para_text(PR, cls, idx, fields, pkgname=None):
+    lines = ['Package: %s' % (pkgname if pkgname is not None else 'pkg%d' % idx)]
     for name, desc in fields:
         lines.append('%s: %s' % (name, PR.str(build(PR, desc))))
     return lines
@@ -708,14 +823,18 @@ def para_text(PR, cls, idx, fields):
 
 def make_paragraphs(PR, cls, init, paras):
     """Build the paragraph objects the way `init` says; None when the paragraph count is off."""
-    texts = [para_text(PR, cls, i, f) for i, f in enumerate(paras)]
+    return objects_from_texts(cls, init, [para_text(PR, cls, i, f) for i, f in enumerate(paras)])
+
+
+def objects_from_texts(cls, init, texts):
+    """Fresh paragraph objects from the lines of each paragraph."""
     if init == 'iter':
         lines = []
         for t in texts:
             lines.extend(t)
             lines.append('')
         objs = list(cls.iter_paragraphs(lines, use_apt_pkg=False))
-        return objs if len(objs) == len(paras) else None
+        return objs if len(objs) == len(texts) else None
     if init == 'text':
         return [cls('\n'.join(t) + '\n') for t in texts]
     if init == 'lines':
@@ -804,6 +923,395 @@ def run_deb822(ctx, PR, case):
     ctx.violation('relations-property/%s' % problem[0], problem[1], case)
 
 
+# ---------------------------------------------------------------------------
+# view flavour: the read paths of the dict-like `.relations` other than the subscript
+
+class ViewModel(object):
+    """What one paragraph's `.relations` has to hold: the oracle."""
+
+    def __init__(self, PR, clsname, fields, lines):
+        self.doc = DOC_KEYS[clsname]
+        self.names = {n.lower(): n for n, _d in fields}               # lower-case key -> field name as written
+        self.want = {k: [] for k in self.doc}
+        self.text = {}
+        for (n, desc), line in zip(fields, lines[1:]):
+            self.want[n.lower()] = build(PR, desc, canonical=True)
+            self.text[n.lower()] = line.split(': ', 1)[1]
+        self.present = [k for k in self.doc if k in self.names]
+        self.absent = [k for k in self.doc if k not in self.names]
+        self.formatted = {}       # key -> the last value object that was formatted back (second-format check done)
+
+
+def judge_value(PR, model, k, got, tick):
+    """None, or (suffix, message) for the value read for documented key `k`."""
+    if tick is not None:
+        tick('present' if k in model.names else 'absent')
+    if k not in model.names:
+        if type(got) is not list or got != []:
+            return 'absent-field-not-empty-list', 'documented relationship field %r is not in the paragraph: expected [], got %s' % (
+                k, rp(got))
+        return None
+    if got is None or isinstance(got, (str, bytes)):
+        return 'present-field-unparsed/%s' % type(got).__name__, 'field %r (value %s): got %s instead of the parsed structure' % (
+            k, rp(model.text[k]), rp(got))
+    d = diff(PR, got, model.want[k])
+    if d is not None:
+        return 'differs/%s' % d[0], 'field %r (value %s): %s' % (k, rp(model.text[k]), d[1])
+    if model.formatted.get(k) is got:       # this very object was formatted back before, and it still == the oracle
+        return None
+    model.formatted[k] = got
+    again = PR.str(got)
+    if again != model.text[k]:
+        return 'reformat-differs', 'field %r (value %s): formats back to %s' % (k, rp(model.text[k]), rp(again))
+    return None
+
+
+def judge_keys(model, keys):
+    if len(set(keys)) != len(keys):
+        return 'duplicate-keys', 'keys %s' % rp(keys)
+    for k in model.doc:
+        if k not in keys:
+            return ('present-field-missing' if k in model.names else 'absent-field-missing',
+                    'no key %r (%s) among %s' % (k, 'a field of the paragraph' if k in model.names
+                                                 else 'documented relationship field, not in the paragraph', rp(sorted(keys))))
+    return None
+
+
+def judge_mapping(PR, model, mapping, tick):
+    for k in model.doc:
+        if k not in mapping:
+            return ('present-field-missing' if k in model.names else 'absent-field-missing',
+                    'no entry for %r (%s); keys %s' % (k, 'a field of the paragraph' if k in model.names
+                                                       else 'documented relationship field, not in the paragraph',
+                                                       rp(sorted(mapping))))
+        p = judge_value(PR, model, k, mapping[k], tick)
+        if p is not None:
+            return p
+    return None
+
+
+_NOTHING = object()
+
+
+def read_view(PR, path, rel, model, env, tick):
+    """Apply one read path to the dict-like `rel` and judge what it shows.  None or (suffix, message)."""
+    if path == 'sub':
+        for k in model.present:
+            for spelling in (model.names[k], k):
+                try:
+                    got = rel[spelling]
+                except KeyError:
+                    return 'present-field-missing', 'rel[%r] raised KeyError' % spelling
+                p = judge_value(PR, model, k, got, tick)
+                if p is not None:
+                    return p
+        for k in model.absent:
+            try:
+                got = rel[k]
+            except KeyError:
+                return 'absent-field-missing', 'rel[%r] raised KeyError (documented relationship field, not in the paragraph)' % k
+            p = judge_value(PR, model, k, got, tick)
+            if p is not None:
+                return p
+        return None
+    if path == 'items':
+        pairs = list(rel.items())
+        return judge_keys(model, [k for k, _v in pairs]) or judge_mapping(PR, model, dict(pairs), tick)
+    if path == 'values':
+        vals = list(rel.values())
+        keys = list(rel.keys())
+        if len(vals) != len(keys):
+            return 'values-keys-length-differ', '%d values for keys %s' % (len(vals), rp(keys))
+        return judge_keys(model, keys) or judge_mapping(PR, model, dict(zip(keys, vals)), tick)
+    if path == 'keys':
+        return judge_keys(model, list(rel.keys()))
+    if path == 'iter':
+        return judge_keys(model, [k for k in rel])
+    if path == 'get':
+        return judge_mapping(PR, model, {k: rel.get(k) for k in model.doc}, tick)
+    if path == 'get-default':
+        got = {k: rel.get(k, _NOTHING) for k in model.doc}
+        return judge_mapping(PR, model, {k: v for k, v in got.items() if v is not _NOTHING}, tick)
+    if path in ('dict', 'unpack', 'copy'):
+        m = dict(rel) if path == 'dict' else ({**rel} if path == 'unpack' else rel.copy())
+        return judge_keys(model, list(m)) or judge_mapping(PR, model, m, tick)
+    if path == 'in':
+        for k in model.doc:
+            if k not in rel:
+                return ('present-field-missing' if k in model.names else 'absent-field-missing'), '%r in rel is False' % k
+        return None
+    if path == 'len':
+        n, keys = len(rel), list(rel.keys())
+        if n != len(keys):
+            return 'len-differs-from-keys', 'len %d, keys %s' % (n, rp(keys))
+        if n < len(model.doc):
+            return 'len-below-documented-fields', 'len %d, documented relationship fields %d' % (n, len(model.doc))
+        return None
+    if path == 'eq':
+        twin = env['fresh'](env['pi']).relations              # another object of the same paragraph, never subscripted
+        if tick is not None:
+            tick('eq')
+        if not (rel == twin) or rel != twin or not (twin == rel):
+            bad = [k for k in model.doc if rel.get(k, _NOTHING) != twin.get(k, _NOTHING)]
+            return 'equal-paragraphs-unequal-relations', ('relations of two objects of the same paragraph compare unequal; '
+                                                          'differing keys %s: %s vs %s' % (
+                                                              bad, rp([rel.get(k) for k in bad]), rp([twin.get(k) for k in bad])))
+        for pj, other in enumerate(env['models']):
+            if other.want != model.want:
+                o = env['fresh'](pj).relations
+                if tick is not None:
+                    tick('eq')
+                if rel == o or not (rel != o):
+                    return 'different-paragraphs-equal-relations', ('relations compare equal to those of a paragraph with '
+                                                                    'other field values: %s' % rp(dict(o)))
+                break
+        if sorted(rel.keys()) == sorted(model.doc):
+            if tick is not None:
+                tick('eq')
+            if not (rel == model.want) or rel != model.want:
+                return 'differs-from-expected-mapping', 'rel == expected mapping is False; rel is %s' % rp(dict(rel))
+        return None
+    raise ValueError(path)
+
+
+def exec_view(PR, cls, clsname, case, stats=None):
+    """Run every plan of a view case on paragraph objects of its own.  None, 'count', or
+    (key, message, plan index, step index)."""
+    init, paras = case['init'], case['paras']
+    try:
+        texts = [para_text(PR, cls, i, f, case['pkg'][i] if case.get('pkg') else None) for i, f in enumerate(paras)]
+    except Exception as e:
+        return 'paragraph-construction-raises/%s' % type(e).__name__, 'str() of a generated structure: %s' % str(e)[:300], 0, 0
+    models = [ViewModel(PR, clsname, f, t) for f, t in zip(paras, texts)]
+    tick = stats.tick if stats is not None else None
+
+    def fresh(pi):
+        return cls(list(texts[pi]))
+
+    for gi, plan in enumerate(case['plans']):
+        try:
+            objs = objects_from_texts(cls, init, texts)
+        except Exception as e:
+            return ('paragraph-construction-raises/%s' % type(e).__name__,
+                    '%s(%s) from str() output: %s' % (clsname, init, str(e)[:300]), gi, 0)
+        if objs is None:
+            return 'count'
+        held, subscripted, last = {}, set(), None
+        for m in models:
+            m.formatted.clear()
+        for si, (pi, path) in enumerate(plan['steps']):
+            phase = 'later' if pi in subscripted else 'first'
+            with warnings.catch_warnings(record=True) as caught:
+                warnings.simplefilter('always')
+                if plan['hold'] and pi in held:
+                    rel = held[pi]
+                else:
+                    rel = held[pi] = objs[pi].relations
+                problem = read_view(PR, path, rel, models[pi], {'fresh': fresh, 'pi': pi, 'models': models}, tick)
+            if stats is not None:
+                stats.step(plan['plan'], path, phase, last is not None and last != pi)
+            if problem is None and caught:
+                problem = 'parse-warning', 'warned: %s' % '; '.join(str(w.message)[:300] for w in caught[:3])
+            if problem is not None:
+                return ('relations-view/%s/%s/%s' % (path, phase, problem[0]),
+                        '%s(%s) paragraph %d, plan %r step %d of %r [paragraph:read path] (%s): .relations read through %r %s: %s' % (
+                            clsname, init, pi, plan['plan'], si, ['%d:%s' % (i, q) for i, q in plan['steps']],
+                            'one .relations object kept' if plan['hold'] else '.relations fetched at every step', path,
+                            'before any subscript on that object' if phase == 'first' else 'after a subscript on that object',
+                            problem[1]), gi, si)
+            if path == 'sub':
+                subscripted.add(pi)
+            last = pi
+    return None
+
+
+class ViewStats(object):
+    def __init__(self, ctx):
+        self.ctx = ctx
+
+    def tick(self, what):
+        if what == 'eq':
+            self.ctx.mon('M.view.eq')
+        else:
+            self.ctx.mon('M.view')
+            self.ctx.count('view:' + what)
+
+    def step(self, plan, path, phase, switched):
+        self.ctx.count('view:path:%s:%s' % (path, phase))
+        if plan == 'alt' and switched:
+            self.ctx.count('view:alt-switch')
+
+
+def view_in_domain(case):
+    try:
+        if case['cls'] not in CLS_FIELDS or case['init'] not in ('text', 'lines', 'dict', 'iter'):
+            return False
+        paras = case['paras']
+        if not (isinstance(paras, list) and paras):
+            return False
+        for fields in paras:
+            names = [n.lower() for n, _d in fields]
+            if not names or len(set(names)) != len(names) or not all(n in CLS_FIELDS[case['cls']] for n, _d in fields):
+                return False
+            if not all(in_domain(d) for _n, d in fields):
+                return False
+        if case.get('pkg') is not None and not (
+                isinstance(case['pkg'], list) and len(case['pkg']) == len(paras)
+                and all(isinstance(n, str) and RE_NAME.match(n) for n in case['pkg'])):
+            return False
+        pre = case.get('prelude')
+        if pre is not None and not (isinstance(pre, list) and len(pre) <= 3
+                                    and all(isinstance(c, dict) and 'prelude' not in c and view_in_domain(c) for c in pre)):
+            return False
+        if not (isinstance(case['plans'], list) and case['plans']):
+            return False
+        for plan in case['plans']:
+            if plan['plan'] not in VIEW_PLANS or not isinstance(plan['hold'], bool) or not plan['steps']:
+                return False
+            for pi, path in plan['steps']:
+                if not (isinstance(pi, int) and 0 <= pi < len(paras)) or path not in VIEW_STEPS:
+                    return False
+        return True
+    except (KeyError, TypeError, ValueError):
+        return False
+
+
+def view_candidates(PR, cls, clsname, case, problem):
+    """Smaller cases that fail when executed in THIS process, smallest first: one field of the paragraph that was
+    being read; that paragraph alone; the failing plan alone, cut after the failing step.  (This process has
+    executed other cases before, so a candidate is only a candidate: see confirm_view.)"""
+    gi, si = problem[2], problem[3]
+    plan = case['plans'][gi]
+    out = []
+    trunc = dict(case, plans=[dict(plan, steps=plan['steps'][:si + 1])])
+    if exec_view(PR, cls, clsname, trunc) in (None, 'count'):
+        return out
+    out.append(trunc)
+    pi = plan['steps'][si][0]
+    steps = [[0, q] for i, q in trunc['plans'][0]['steps'] if i == pi]
+    one = dict(trunc, paras=[case['paras'][pi]], plans=[dict(plan, steps=steps)])
+    if case.get('pkg'):
+        one['pkg'] = [case['pkg'][pi]]
+    if exec_view(PR, cls, clsname, one) in (None, 'count'):
+        return out
+    out.insert(0, one)
+    for field in case['paras'][pi]:
+        cand = dict(one, paras=[[field]])
+        if exec_view(PR, cls, clsname, cand) not in (None, 'count'):
+            out.insert(0, cand)
+            break
+    return out
+
+
+def standalone(case):
+    """Entry point of the confirmation subprocess: execute one view case, return [key, message] or None."""
+    from debian import deb822
+    from debian.deb822 import PkgRelation as PR
+    if not view_in_domain(case):
+        return ['out-of-domain', '']
+    for c in list(case.get('prelude') or []) + [case]:
+        p = exec_view(PR, getattr(deb822, c['cls']), c['cls'], c)
+        if p not in (None, 'count'):
+            return [p[0], p[1]]
+    return None
+
+
+_STANDALONE = ('import sys, json\n'
+               'from vp import core\n'
+               'core.bootstrap_repo()\n'
+               'from vp.props import c13\n'
+               'sys.stdout.write("RESULT " + json.dumps(c13.standalone(json.load(sys.stdin))))\n')
+
+
+def fails_standalone(case):
+    """Does `case` fail when it is the only thing a fresh interpreter executes (what --replay does)?
+    [key, message], None (passes), or 'unknown'."""
+    import json
+    import subprocess
+    import sys
+    from .. import core
+    try:
+        p = subprocess.run([sys.executable, '-B', '-c', _STANDALONE], input=json.dumps(case).encode('ascii'),
+                           stdout=subprocess.PIPE, stderr=subprocess.DEVNULL, timeout=120, cwd=core.VERIF)
+        out = p.stdout.decode('utf-8', 'replace')
+        if p.returncode != 0 or 'RESULT ' not in out:
+            return 'unknown'
+        return json.loads(out.split('RESULT ', 1)[1])
+    except Exception:
+        return 'unknown'
+
+
+CONFIRM_BUDGET = [4]      # violations per shard process whose witness is confirmed in a fresh interpreter
+PREV_VIEW = [None]        # the view case this process executed before the current one
+
+
+def confirm_view(PR, cls, clsname, case, problem):
+    """((key, message), witness).  The library may keep state between paragraph objects, and this process has read
+    thousands of them: a witness is only worth something if it fails from a fresh interpreter.  The candidates - the
+    in-process shrinks, the case itself, the case with the preceding case as prelude - are therefore executed in a
+    subprocess, smallest first, and the first that fails there is reported."""
+    bare = {k: v for k, v in case.items() if k != 'prelude'}
+    with_prev = dict(bare, prelude=[PREV_VIEW[0]]) if PREV_VIEW[0] is not None else None
+    fallback = case if case.get('prelude') else (with_prev or bare)
+    if CONFIRM_BUDGET[0] <= 0:
+        return (problem[0], problem[1] + ' [witness: the whole case with the preceding case of this process as prelude; '
+                'not re-executed in a fresh interpreter - confirmation budget of this shard used up]'), fallback
+    CONFIRM_BUDGET[0] -= 1
+    cands = view_candidates(PR, cls, clsname, bare, problem) + [bare] + ([with_prev] if with_prev is not None else [])
+    for cand in cands:
+        got = fails_standalone(cand)
+        if got == 'unknown':
+            break
+        if got is not None and got[0] != 'out-of-domain':
+            return (got[0], got[1]), cand
+    return (problem[0], problem[1] + ' [NOT reproduced from a fresh interpreter, neither alone nor with the preceding case '
+            'as prelude: the value read depends on paragraph objects this process handled earlier]'), fallback
+
+
+def run_view(ctx, PR, case):
+    from debian import deb822
+    clsname = case['cls']
+    cls = getattr(deb822, clsname)
+    for pre in case.get('prelude') or []:        # witnesses only: what the process had executed just before
+        p = exec_view(PR, getattr(deb822, pre['cls']), pre['cls'], pre)
+        if p not in (None, 'count'):
+            ctx.violation(p[0], p[1] + ' [in the prelude of the replayed case]', pre)
+            return
+    nt = False
+    for fields in case['paras']:
+        for _name, desc in fields:
+            nt = account(ctx, desc) or nt
+    problem = exec_view(PR, cls, clsname, case, ViewStats(ctx))
+    if problem == 'count':
+        ctx.count('skipped:paragraph-count')
+        return
+    ctx.count('view:%s' % clsname)
+    ctx.count('view:init:%s' % case['init'])
+    for plan in case['plans']:
+        ctx.count('view:plan:%s' % plan['plan'])
+        ctx.count('view:rel:%s' % ('kept' if plan['hold'] else 'refetched'))
+    ctx.count('view:package-names:%s' % ('distinct' if len(set(case.get('pkg') or [0, 1])) > 1 else 'same'))
+    if problem is None:
+        PREV_VIEW[0] = {k: v for k, v in case.items() if k != 'prelude'}
+        if nt:
+            ctx.nontrivial()
+        return
+    # attribution: does the bare str/parse_relations boundary already fail on one of these structures?
+    for fields in case['paras']:
+        for _name, desc in fields:
+            f = roundtrip(ctx, PR, desc, mon=False)[0]
+            if f is not None:
+                f, small = shrink(ctx, PR, desc, f)
+                ctx.violation(f[0], f[1], small)
+                return
+    if ctx.replay:
+        ctx.violation(problem[0], problem[1], case)
+        return
+    found, witness = confirm_view(PR, cls, clsname, case, problem)
+    ctx.violation(found[0], found[1], witness)
+    PREV_VIEW[0] = {k: v for k, v in case.items() if k != 'prelude'}
+
+
 def run_case(ctx, case):
     from debian.deb822 import PkgRelation as PR
     kind = case.get('kind')
@@ -823,6 +1331,11 @@ def run_case(ctx, case):
             ctx.count('skipped:out-of-domain')
             return
         run_deb822(ctx, PR, case)
+    elif kind == 'view':
+        if not view_in_domain(case):
+            ctx.count('skipped:out-of-domain')
+            return
+        run_view(ctx, PR, case)
     else:
         ctx.count('skipped:out-of-domain')
 
@@ -839,7 +1352,7 @@ def conclusive(tier, counters, monitor_evals, extra):
             len(missing), len(SHAPES), KSHAPE_FLOOR[tier], ', '.join(missing[:8])))
     if counters.get('skipped:out-of-domain', 0):
         return 'generator produced %d out-of-domain cases (harness defect)' % counters['skipped:out-of-domain']
-    if counters.get('skipped:paragraph-count', 0) > counters.get('flavour:deb822', 0) // 10:
+    if counters.get('skipped:paragraph-count', 0) > (counters.get('flavour:deb822', 0) + counters.get('flavour:view', 0)) // 10:
         return 'deb822 flavour: iter_paragraphs returned an unexpected paragraph count too often'
     return None
 
@@ -849,7 +1362,10 @@ LEVEL_TEXT = ('Runtime monitoring: 10^5 (quick) / 2*10^6 (thorough) generated re
               'live PkgRelation.str, parsed by the live PkgRelation.parse_relations under a recording warnings filter, and '
               'compared with the structure itself (values, documented namedtuple types, second formatting).  A history '
               'flavour edits earlier parse results in place before parsing fresh structures made of the same atoms; a '
-              'third flavour reads the result through Packages/Sources .relations.  About half of the per-relation dicts '
+              'third flavour reads the result through Packages/Sources .relations by subscript; a fourth reads the dict-like '
+              '.relations through every other read path (items, values, keys, iteration, get, dict(), {**}, copy, ==, in, '
+              'len) on fresh paragraph objects before and after the first subscript and on two objects alternately, '
+              'documented absent relationship fields reading as [].  About half of the per-relation dicts '
               'reach str with a permuted key insertion order (same items; str must give the string of the == canonical '
               'structure), a quarter of the architecture lists mix negated and plain names.  Held-on-observed, not a proof.')
 LEVEL_NOTE = ('Trusted: CPython, the generators and vp.models.dpkgver.classify (version validity).  Domain restricted to '
@@ -859,4 +1375,7 @@ LEVEL_NOTE = ('Trusted: CPython, the generators and vp.models.dpkgver.classify (
 TECHNIQUE = ('runtime monitoring: boundary oracle M (the generated structure itself) on PkgRelation.parse_relations('
              'PkgRelation.str(R)) with warning capture and re-format check; M.order (str of a structure whose dicts have '
              'permuted key order equals str of the == canonical structure); history monitor M.hist (in-place edits of earlier '
-             'results between parses); M.deb822 observes the same boundary through Packages/Sources .relations')
+             'results between parses); M.deb822 observes the same boundary through Packages/Sources .relations[name]; '
+             'M.view / M.view.eq observe it through the other read paths of the dict-like .relations (items, values, keys, '
+             'iteration, get, dict(), {**}, copy, ==/!=, in, len) before and after the first subscript, on fresh paragraph '
+             'objects and on two objects read alternately')
